@@ -240,6 +240,37 @@ def report(run, drv, coverage_extra=None, exhaustive=True):
     return rc
 
 
+def _watched(pool, it, n, pid, tier, jobs):
+    """Yield the results of pool.imap, but notice a worker that died (killed by the OOM killer, crashed in native
+    code): multiprocessing would wait for its lost task for ever.  The whole check is then restarted with half
+    the workers (twice at most); no verdict is derived from a partial run."""
+    import multiprocessing as mp
+    pids = {p.pid for p in pool._pool}
+    got = 0
+    while got < n:
+        try:
+            res = it.next(timeout=15)
+        except mp.TimeoutError:
+            alive = {p.pid for p in pool._pool if p.is_alive()}
+            if pids <= alive:
+                continue
+            pool.terminate()
+            retry = int(os.environ.get("VERIF_RETRY", "0"))
+            if retry >= 2:
+                print("HARNESS ERROR: worker processes of %s keep dying (out of memory?); no verdict" % pid)
+                sys.stdout.flush()
+                os._exit(2)
+            newjobs = max(2, jobs // 2)
+            print("note: a worker process died (out of memory?); restarting %s with %d workers" % (pid, newjobs))
+            sys.stdout.flush()
+            os.environ["VERIF_RETRY"] = str(retry + 1)
+            os.execv(sys.executable, [sys.executable, "-m", "vf.cli", pid, "--tier", tier, "--jobs", str(newjobs)])
+        except StopIteration:
+            return
+        got += 1
+        yield res
+
+
 def run_property(pid, tier, seed, jobs, replay=None):
     pool = None
     if replay is None and jobs > 1:
@@ -281,7 +312,7 @@ def run_property(pid, tier, seed, jobs, replay=None):
         if pool is None:
             it = map(_run_chunk, chunks)
         else:
-            it = pool.imap(_run_chunk, chunks)   # ordered: simplest first
+            it = _watched(pool, pool.imap(_run_chunk, chunks), len(chunks), pid, tier, jobs)   # ordered: simplest first
         for res in it:
             for case, out in res:
                 run.record(case, out)
